@@ -319,12 +319,18 @@ def maybe_defval(g, mod, d):
                     return
                 n = max(1, slo)
             digits = ''.join(rng.choice('0123456789ABCDEFabcdef') for _ in range(2 * n))
+            if n and rng.random() < 0.3:
+                digits = (rng.choice(['0', '00', '000']) + digits)[:2 * n]
             d.defval = DefVal('hex', int(digits, 16) if digits else 0, spelling="'%s'%s" % (digits, rng.choice('hH')))
         elif 'defval_bin_octets' in f:
             if shi < 1:
                 return
             n = rng.randint(max(1, slo), max(1, slo, min(shi, max(1, slo) + 2)))
             digits = ''.join(rng.choice('01') for _ in range(8 * n))
+            if rng.random() < 0.5:
+                # leading zero bits / a leading zero octet are part of the value of a string
+                k = rng.choice([4, 8, 12])
+                digits = ('0' * k + digits)[:8 * n]
             d.defval = DefVal('bin', int(digits, 2), spelling="'%s'%s" % (digits, rng.choice('bB')))
     elif base == 'Bits':
         bits = getattr(syn, 'bits_eff', None) or syn.bits
